@@ -12,15 +12,26 @@ clean() { git -C $WT checkout -q -- . ; git -C $WT clean -fdq -e SEED ; }
 clean
 git -C $WT checkout -q --detach $(git -C /repo rev-parse HEAD) || exit 2
 DEMO=$(jq -r .demo_cmd $S/meta.json)
+PLACE=$(jq -r .demo_place $S/meta.json | awk '{print $1}')
+place_demo() {  # put the demonstration file(s) where meta.json says, unless demo_cmd does it itself
+  case "$PLACE" in
+    *.go) mkdir -p $WT/$(dirname $PLACE); for f in $S/*_test.go $S/*.go; do [ -f "$f" ] && cp -n $f $WT/$(dirname $PLACE)/; done;;
+    ""|null) ;;
+    *) mkdir -p $WT/$PLACE; for f in $S/*_test.go $S/*.go; do [ -f "$f" ] && cp -n $f $WT/$PLACE/; done;;
+  esac
+}
 cd $WT
-echo "== demo on clean tree"; bash -c "$DEMO" > /tmp/seed-$PID-$N.clean.log 2>&1; RC_CLEAN=$?
+place_demo
+echo "== demo on clean tree"; bash -o pipefail -c "$DEMO" > /tmp/seed-$PID-$N.clean.log 2>&1; RC_CLEAN=$?
+grep -q "no tests to run" /tmp/seed-$PID-$N.clean.log && { echo "   demo did not run (no tests to run)"; RC_CLEAN=99; }
 echo "   rc=$RC_CLEAN"
 clean
 if ! git -C $WT apply $S/patch.diff; then echo "PATCH DOES NOT APPLY on current HEAD"; clean; exit 3; fi
 FILES=$(git -C $WT diff --name-only | tr '\n' ' ')
 echo "== build of touched packages"; PK=$(for f in $FILES; do case $f in *.go) echo ./$(dirname $f);; esac; done | sort -u | tr '\n' ' ')
 go build $PK > /tmp/seed-$PID-$N.build.log 2>&1; RC_BUILD=$?; echo "   rc=$RC_BUILD ($PK)"
-echo "== demo with patch"; bash -c "$DEMO" > /tmp/seed-$PID-$N.patched.log 2>&1; RC_PATCHED=$?
+place_demo
+echo "== demo with patch"; bash -o pipefail -c "$DEMO" > /tmp/seed-$PID-$N.patched.log 2>&1; RC_PATCHED=$?
 echo "   rc=$RC_PATCHED"
 # remove demo files again (keep the patch applied for the static checks)
 git -C $WT clean -fdq -e SEED
